@@ -560,6 +560,24 @@ fn zst_run<const N: usize>(front: usize, back: usize, clones: usize, pushed: usi
         }
         let d = TOKEN_DROPS.with(|t| t.get());
         ensure!(d == k as u32, "OWN: zero-sized Drop elements: {k} tokens pushed into a builder (N={N}) but {d} destructor calls were observed");
+        if k < N {
+            // an under-filled builder must refuse to build whatever the element size: a zero-sized element has no bytes,
+            // it still has an identity (a destructor call per value) and `[T; N]` promises N of them
+            let mut b2: ArrayBuilder<Token, N> = ArrayBuilder::new();
+            for _ in 0..k {
+                b2.push(Token);
+            }
+            let r = catch(move || drop(b2.build()));
+            ensure!(r.is_err(), "VAL: build() of a builder of zero-sized Drop elements with {k} of {N} elements pushed did not panic");
+            let d2 = TOKEN_DROPS.with(|t| t.get());
+            ensure!(d2 - d <= k as u32, "OWN: zero-sized Drop elements: early build() with {k} of {N} pushed, {} destructor calls", d2 - d);
+            let mut b3: ArrayBuilder<(), N> = ArrayBuilder::new();
+            for _ in 0..k {
+                b3.push(());
+            }
+            let r = catch(move || b3.build());
+            ensure!(r.is_err(), "VAL: build() of an ArrayBuilder<(), {N}> with {k} elements pushed did not panic");
+        }
     }
     // destructure! of arrays / tuples of tokens
     TOKEN_DROPS.with(|t| t.set(0));
